@@ -34,4 +34,13 @@ C13_CASE(fs_db_relu_add, C13_DTYPES_ALL, 4, { fs_db_t<T> a{}; a.resize(Shape{(si
 C13_CASE(hs_hb_add, C13_DTYPES_ALL, 6, { auto s = shape_nd(d, 0, 3); while (prod(s) > 24) { for (auto& e : s) if (e > 1) { e--; break; } } hs_hb_t<T> a{}; a.resize(s); fill<decltype(a), T>(a, r, 0); hs_hb_t<T> b{}; b.resize(s); fill<decltype(b), T>(b, r, 0); auto v = view::add(a, b); EVAL(v); })
 C13_CASE(hs_hb_concatenate, C13_DTYPES_ALL, 6, { auto s = shape_nd(d, 0, 2); while (prod(s) > 12) { for (auto& e : s) if (e > 1) { e--; break; } } hs_hb_t<T> a{}; a.resize(s); fill<decltype(a), T>(a, r, 0); hs_hb_t<T> b{}; b.resize(s); fill<decltype(b), T>(b, r, 0); int axis = (int)dim_at(d, 5, 0, (long)s.size() - 1); auto v = view::concatenate(a, b, axis); EVAL(v); })
 
+template <class T> using ds_hb_t = na::ndarray_t<na::static_vector<T, 24>, nmtools_list<size_t>>;
+template <class T> using hs_db_t = na::ndarray_t<nmtools_list<T>, na::static_vector<size_t, 3>>;
+template <class T> using ls_db_t = na::ndarray_t<nmtools_list<T>, nmtools_array<nm::clipped_size_t<6>, 2>>;
+inline Shape small_shape(const std::vector<long>& d, size_t off, size_t maxrank, size_t cap) { auto s = shape_nd(d, off, (long)maxrank); while (prod(s) > cap) { for (auto& e : s) if (e > 1) { e--; break; } } return s; }
+
+C13_CASE(ds_hb_multiply_broadcast, C13_DTYPES_ALL, 8, { auto s = small_shape(d, 0, 3, 24); ds_hb_t<T> a{}; a.resize(s); fill<decltype(a), T>(a, r, 0); auto sb = broadcast_partner(s, d, 5); ds_hb_t<T> b{}; b.resize(sb); fill<decltype(b), T>(b, r, 0); auto v = view::multiply(a, b); EVAL(v); })
+C13_CASE(hs_db_flip, C13_DTYPES_ALL, 7, { auto s = shape_nd(d, 0, 3); hs_db_t<T> a{}; a.resize(s); fill<decltype(a), T>(a, r, 0); int axis = (int)dim_at(d, 5, 0, (long)s.size() - 1); auto v = view::flip(a, axis); EVAL(v); })
+C13_CASE(hs_hb_reduce_add, C13_DTYPES_ALL, 7, { auto s = small_shape(d, 0, 3, 24); hs_hb_t<T> a{}; a.resize(s); fill<decltype(a), T>(a, r, 0); int axis = (int)dim_at(d, 5, 0, (long)s.size() - 1); auto v = view::reduce_add(a, axis); EVAL(v); })
+
 } // namespace c13
